@@ -131,8 +131,8 @@ Section HM5.
     - exists ch, fl. apply (inv_kfn K V keqb khash m ch fl _ I). split; [rewrite map_length; reflexivity|].
       intros i nd H. rewrite nth_error_map, H. cbn [option_map]. eexists; split; [reflexivity|].
       destruct (nfilled nd) eqn:E; cbn; rewrite ?E; auto.
-    - unfold ProofsHM2.hm_abs. cbn [Model.hnodes]. induction (hnodes m) as [|a ns IH]; [reflexivity|].
-      cbn [map]. unfold ProofsHM2.abs_of in *. cbn [filter]. destruct (nfilled a) eqn:E; cbn [Model.nfilled Model.set_val]; rewrite E.
+    - unfold Model.hm_abs. cbn [Model.hnodes]. induction (hnodes m) as [|a ns IH]; [reflexivity|].
+      cbn [map]. unfold Model.abs_of in *. cbn [filter]. destruct (nfilled a) eqn:E; cbn [Model.nfilled Model.set_val]; rewrite E.
       + cbn [map ProofsAL.mapvals]. unfold ProofsAL.mapvals in IH. rewrite IH. reflexivity.
       + exact IH.
   Qed.
@@ -183,13 +183,13 @@ Section HM5.
     induction rest as [|a rest IH]; intros c; cbn [hm_scan]; [reflexivity|].
     destruct (nfilled a) eqn:E.
     - rewrite Nat.sub_diag. cbn [nth_error firstn skipn]. repeat split; try lia; try assumption.
-      unfold ProofsHM2.abs_of. cbn [filter]. rewrite E. reflexivity.
+      unfold Model.abs_of. cbn [filter]. rewrite E. reflexivity.
     - specialize (IH (S c)). destruct (hm_scan K V rest (S c)) as [[i nd]|].
       + destruct IH as (A & B & C & D & F). replace (i - c) with (S (i - S c)) by lia.
         cbn [nth_error firstn skipn]. repeat split; try lia; try assumption.
-        * unfold ProofsHM2.abs_of in *. cbn [filter]. rewrite E. assumption.
-        * unfold ProofsHM2.abs_of in *. cbn [filter]. rewrite E. assumption.
-      + unfold ProofsHM2.abs_of in *. cbn [filter]. rewrite E. assumption.
+        * unfold Model.abs_of in *. cbn [filter]. rewrite E. assumption.
+        * unfold Model.abs_of in *. cbn [filter]. rewrite E. assumption.
+      + unfold Model.abs_of in *. cbn [filter]. rewrite E. assumption.
   Qed.
 
   Definition it_of (c : nat) : option nat := match c with 0 => None | S i => Some i end.
@@ -224,7 +224,7 @@ Section HM5.
 
   (* a binding survives unless the predicate selects it and its key can be found (a key that is not == to itself
      - NaN - is never found by remove) *)
-  Definition keep (pred : K -> V -> bool) (kv : K * V) : bool := negb (pred (fst kv) (snd kv) && keqb (fst kv) (fst kv)).
+  Notation keep := (keep K V keqb).
 
   Lemma pairs_erase_loop_ok : forall pred fuel m c, hm_inv m -> length (hnodes m) - c < fuel ->
     exists m', hm_pairs_erase_loop K V kdflt vdflt keqb khash pred fuel (it_of c) m = Ok (abs_of (skipn c (hnodes m)), m') /\
@@ -235,7 +235,7 @@ Section HM5.
     pose proof (scan_spec (skipn c (hnodes m)) c) as SS.
     destruct (hm_scan K V (skipn c (hnodes m)) c) as [[i nd]|].
     2:{ exists m. rewrite SS. cbn [filter]. rewrite app_nil_r. split; [reflexivity|]. split; [assumption|]. split; [reflexivity|].
-        unfold ProofsHM2.hm_abs. rewrite <- (firstn_skipn c (hnodes m)) at 1. rewrite abs_of_app, SS, app_nil_r. reflexivity. }
+        unfold Model.hm_abs. rewrite <- (firstn_skipn c (hnodes m)) at 1. rewrite abs_of_app, SS, app_nil_r. reflexivity. }
     destruct SS as (A & B & C & D & F).
     rewrite nthe_skipn in B. replace (c + (i - c)) with i in B by lia.
     pose proof (nth_error_Some_lt _ _ _ _ B) as Li.
@@ -255,7 +255,7 @@ Section HM5.
       { apply nth_error_ext; intro j. rewrite nthe_firstn, nthe_skipn, nthe_cons, nthe_nil.
         destruct (Nat.ltb_spec j 1); destruct (Nat.eqb_spec j 0); try lia; [|reflexivity].
         subst j. rewrite Nat.add_0_r. assumption. }
-      unfold ProofsHM2.abs_of at 2. cbn [filter]. rewrite C. cbn [map]. rewrite <- app_assoc. reflexivity. }
+      unfold Model.abs_of at 2. cbn [filter]. rewrite C. cbn [map]. rewrite <- app_assoc. reflexivity. }
     destruct (pred (nkey nd) (nval nd)) eqn:Pq; [destruct (keqb (nkey nd) (nkey nd)) eqn:Rk|].
     - (* the visited key is removed *)
       destruct (hm_remove_ok K V kdflt vdflt keqb khash keqb_sym keqb_trans hash_coh m (nkey nd) Hinv)
@@ -280,12 +280,12 @@ Section HM5.
         { apply nth_error_ext; intro j. rewrite nthe_firstn, nthe_skipn, nthe_cons, nthe_nil.
           destruct (Nat.ltb_spec j 1); destruct (Nat.eqb_spec j 0); try lia; [|reflexivity].
           subst j. rewrite Nat.add_0_r. assumption. }
-        unfold ProofsHM2.abs_of at 2. cbn [filter]. rewrite Fz. cbn [map]. rewrite app_nil_r.
+        unfold Model.abs_of at 2. cbn [filter]. rewrite Fz. cbn [map]. rewrite app_nil_r.
         rewrite <- HFi. symmetry. apply kvf_eq_abs. split; [rewrite !firstn_length; lia|].
         intros j x Hx. rewrite nthe_firstn in Hx |- *. destruct (Nat.ltb_spec j i); [|discriminate].
         apply KV1; [lia|assumption]. }
       exists m'. rewrite HS1. split; [rewrite F; reflexivity|]. split; [assumption|]. split; [lia|].
-      rewrite A', HF1', HS1, F. cbn [filter]. unfold keep at 2. cbn [fst snd]. rewrite Pq, Rk. reflexivity.
+      rewrite A', HF1', HS1, F. cbn [filter]. unfold Model.keep at 2. cbn [fst snd]. rewrite Pq, Rk. reflexivity.
     - (* the predicate selects the binding but its key is not == to itself: remove finds nothing *)
       destruct (hm_remove_ok K V kdflt vdflt keqb khash keqb_sym keqb_trans hash_coh m (nkey nd) Hinv)
         as (m1 & -> & I1 & HF1 & ST & _). cbn [rbind fst].
@@ -294,11 +294,11 @@ Section HM5.
       rewrite AF in ST. subst m1.
       destruct (KEEP m Hinv eq_refl) as (m' & -> & I' & L' & A'). exists m'.
       split; [reflexivity|]. split; [assumption|]. split; [assumption|].
-      rewrite A', F. cbn [filter]. unfold keep at 2. cbn [fst snd]. rewrite Pq, Rk. reflexivity.
+      rewrite A', F. cbn [filter]. unfold Model.keep at 2. cbn [fst snd]. rewrite Pq, Rk. reflexivity.
     - cbn [rbind].
       destruct (KEEP m Hinv eq_refl) as (m' & -> & I' & L' & A'). exists m'.
       split; [reflexivity|]. split; [assumption|]. split; [assumption|].
-      rewrite A', F. cbn [filter]. unfold keep at 2. cbn [fst snd]. rewrite Pq. reflexivity.
+      rewrite A', F. cbn [filter]. unfold Model.keep at 2. cbn [fst snd]. rewrite Pq. reflexivity.
   Qed.
 
   Lemma hm_pairs_erase_ok : forall pred m, hm_inv m ->
@@ -342,7 +342,7 @@ Section HM5.
         * destruct FA as (nd & l1 & l2 & Hn & F & Q & -> & _). cbn [rbind].
           exists (length (abs_of (firstn i (hnodes m)))).
           pose proof (abs_split K V (hnodes m) i nd Hn) as SP. unfold abs1 in SP. rewrite F in SP.
-          unfold ProofsHM2.hm_abs. rewrite SP. split.
+          unfold Model.hm_abs. rewrite SP. split.
           { rewrite nthe_app, Nat.ltb_irrefl, Nat.sub_diag. reflexivity. }
           { rewrite scan_head. f_equal. rewrite nthe_app.
             destruct (Nat.ltb_spec (S (length (abs_of (firstn i (hnodes m))))) (length (abs_of (firstn i (hnodes m))))); [lia|].
@@ -353,13 +353,9 @@ Section HM5.
 
   (* ---- one step against the association-list specification *)
   (* the map satisfies its invariant and its bindings are, as a multiset, those of the association list *)
-  Definition hm_R (m : hmap) (al : list (K * V)) : Prop := hm_inv m /\ Permutation (hm_abs m) al.
+  Notation hm_R := (hm_R K V keqb khash).
 
-  Definition ret_rel (r1 r2 : hret K V) : Prop :=
-    match r1, r2 with
-    | HList _ _ l1, HList _ _ l2 => Permutation l1 l2
-    | _, _ => r1 = r2
-    end.
+  Notation ret_rel := (ret_rel K V).
 
   Lemma R_nodup : forall m al, hm_R m al -> keys_nodup (hm_abs m) /\ keys_nodup al.
   Proof.
@@ -368,13 +364,7 @@ Section HM5.
   Qed.
 
   (* the largest bucket count operation o can request of a map holding s bindings (0: it requests nothing) *)
-  Definition hop_request (o : hop K V) (s : nat) : nat :=
-    match o with
-    | HSet _ _ _ _ | HGet _ _ _ => at_request s
-    | HReserve _ _ n => Nat.max (ceilidiv (n * 100) HM_MAXLF_n) (ceilidiv (s * 100) HM_MAXLF_n)
-    | HRehash _ _ n => Nat.max n (ceilidiv (s * 100) HM_MAXLF_n)
-    | _ => 0
-    end.
+  Notation hop_request := (hop_request K V).
 
   Lemma R_size : forall m al, hm_R m al -> hsize m = length al.
   Proof.
@@ -394,11 +384,11 @@ Section HM5.
     pose proof (fun k => al_get_perm K V keqb keqb_sym keqb_trans _ _ k NDm P) as GP.
     destruct o; cbn [hm_step al_step].
     - (* set *)
-      destruct (hm_set_ok K V kdflt vdflt keqb khash keqb_sym keqb_trans hash_coh m k v I) as [(-> & Hbig & _)|(m' & -> & I' & HP & _)]; [left; split; [reflexivity|cbn [hop_request]; rewrite <- HSZ; assumption]|right].
+      destruct (hm_set_ok K V kdflt vdflt keqb khash keqb_sym keqb_trans hash_coh m k v I) as [(-> & Hbig & _)|(m' & -> & I' & HP & _)]; [left; split; [reflexivity|cbn [Model.hop_request]; rewrite <- HSZ; assumption]|right].
       cbn [rbind]. do 4 eexists. split; [reflexivity|]. split; [reflexivity|]. split; [|cbn; reflexivity].
       split; [assumption|]. eapply Permutation_trans; [exact HP|]. apply (al_set_perm K V keqb keqb_sym keqb_trans); assumption.
     - (* get *)
-      destruct (hm_get_ok K V kdflt vdflt keqb khash keqb_sym keqb_trans hash_coh m k I) as [(-> & Hbig & _)|(m' & -> & I' & HP & _)]; [left; split; [reflexivity|cbn [hop_request]; rewrite <- HSZ; assumption]|right].
+      destruct (hm_get_ok K V kdflt vdflt keqb khash keqb_sym keqb_trans hash_coh m k I) as [(-> & Hbig & _)|(m' & -> & I' & HP & _)]; [left; split; [reflexivity|cbn [Model.hop_request]; rewrite <- HSZ; assumption]|right].
       cbn [rbind fst snd]. rewrite al_get_find, <- (FP k).
       destruct (al_find k (hm_abs m)) as [kv|] eqn:AF; cbn [option_map].
       + do 4 eexists. split; [reflexivity|]. split; [reflexivity|]. split; [|cbn; reflexivity].
@@ -431,11 +421,11 @@ Section HM5.
       right. destruct (hm_clear_ok m I) as (I' & A). do 4 eexists. split; [reflexivity|]. split; [reflexivity|].
       split; [|cbn; reflexivity]. split; [assumption|]. rewrite A. constructor.
     - (* reserve *)
-      destruct (hm_reserve_op n m I) as [(-> & Hbig & _)|(m' & -> & I' & A & _)]; [left; split; [reflexivity|cbn [hop_request]; rewrite <- HSZ; assumption]|right]. cbn [rbind].
+      destruct (hm_reserve_op n m I) as [(-> & Hbig & _)|(m' & -> & I' & A & _)]; [left; split; [reflexivity|cbn [Model.hop_request]; rewrite <- HSZ; assumption]|right]. cbn [rbind].
       do 4 eexists. split; [reflexivity|]. split; [reflexivity|]. split; [|cbn; reflexivity].
       split; [assumption|]. rewrite A. assumption.
     - (* rehash *)
-      destruct (hm_rehash_op n m I) as [(-> & Hbig & _)|(m' & -> & I' & A & _)]; [left; split; [reflexivity|cbn [hop_request]; rewrite <- HSZ; assumption]|right]. cbn [rbind].
+      destruct (hm_rehash_op n m I) as [(-> & Hbig & _)|(m' & -> & I' & A & _)]; [left; split; [reflexivity|cbn [Model.hop_request]; rewrite <- HSZ; assumption]|right]. cbn [rbind].
       do 4 eexists. split; [reflexivity|]. split; [reflexivity|]. split; [|cbn; reflexivity].
       split; [assumption|]. rewrite A. assumption.
     - (* removal while iterating *)
@@ -475,16 +465,8 @@ Section HM5.
   Qed.
 
   (* ---- whole histories *)
-  Fixpoint hm_run (ops : list (hop K V)) (m : hmap) : res (hmap * list (hret K V)) :=
-    match ops with
-    | [] => Ok (m, [])
-    | o :: tl => p <- hm_step K V kdflt vdflt keqb khash o m ;; q <- hm_run tl (fst p) ;; Ok (fst q, snd p :: snd q)
-    end.
-  Fixpoint al_run (ops : list (hop K V)) (al : list (K * V)) : res (list (K * V) * list (hret K V)) :=
-    match ops with
-    | [] => Ok (al, [])
-    | o :: tl => p <- al_step K V vdflt keqb o al ;; q <- al_run tl (fst p) ;; Ok (fst q, snd p :: snd q)
-    end.
+  Notation hm_run := (hm_run K V kdflt vdflt keqb khash).
+  Notation al_run := (al_run K V vdflt keqb).
 
   (* a history either runs to the end in step with the specification, or stops at the first operation whose
      request (evaluated on the specification's own state) exceeds 2^62 buckets *)
@@ -495,14 +477,14 @@ Section HM5.
     exists m' rs al' rs', hm_run ops m = Ok (m', rs) /\ al_run ops al = Ok (al', rs') /\
       hm_R m' al' /\ Forall2 ret_rel rs rs'.
   Proof.
-    induction ops as [|o tl IH]; intros m al R; cbn [hm_run al_run].
+    induction ops as [|o tl IH]; intros m al R; cbn [Model.hm_run Model.al_run].
     - right. do 4 eexists. split; [reflexivity|]. split; [reflexivity|]. split; [assumption|constructor].
     - destruct (hm_step_refines o m al R) as [(-> & Hbig)|(m1 & r & al1 & r' & -> & Eal & R1 & RR)].
       { left. split; [reflexivity|]. exists [], o, tl, al, []. split; [reflexivity|]. split; [reflexivity|assumption]. }
       rewrite Eal. cbn [rbind fst snd].
       destruct (IH m1 al1 R1) as [(-> & pre & o' & post & al0 & rs0 & -> & Hpre & Hbig)|(m2 & rs & al2 & rs' & -> & -> & R2 & RRs)]; [left|right].
       + split; [reflexivity|]. exists (o :: pre), o', post, al0, (r' :: rs0). split; [reflexivity|].
-        split; [|assumption]. cbn [al_run]. rewrite Eal. cbn [rbind fst snd]. rewrite Hpre. reflexivity.
+        split; [|assumption]. cbn [Model.al_run]. rewrite Eal. cbn [rbind fst snd]. rewrite Hpre. reflexivity.
       + cbn [rbind fst snd]. do 4 eexists. split; [reflexivity|]. split; [reflexivity|]. split; [assumption|].
         constructor; assumption.
   Qed.
@@ -526,22 +508,21 @@ Section HM5.
   Qed.
   Lemma al_run_len : forall ops al al' rs, al_run ops al = Ok (al', rs) -> length al' <= length al + length ops.
   Proof.
-    induction ops as [|o tl IH]; intros al al' rs H; cbn [al_run] in H.
+    induction ops as [|o tl IH]; intros al al' rs H; cbn [Model.al_run] in H.
     - inversion H; subst. cbn. lia.
     - destruct (al_step K V vdflt keqb o al) as [[al1 r]|t] eqn:E; [|discriminate]. cbn [rbind fst snd] in H.
       destruct (al_run tl al1) as [[al2 rs2]|t] eqn:E2; [|discriminate]. cbn [rbind fst snd] in H. inversion H; subst.
       pose proof (al_step_len _ _ _ _ E). pose proof (IH _ _ _ E2). cbn [length]. lia.
   Qed.
 
-  Definition hop_count (o : hop K V) : nat :=
-    match o with HReserve _ _ n | HRehash _ _ n => n | _ => 0 end.
+  Notation hop_count := (hop_count K V).
 
   Lemma hop_request_small : forall o s, (Z.of_nat s < 2 ^ 50)%Z -> (Z.of_nat (hop_count o) < 2 ^ 50)%Z ->
     (Z.of_nat (hop_request o s) <= 2 ^ 62)%Z.
   Proof.
     intros o s Hs Hc. destruct hm_rate_facts as (G & L & _). pose proof hm_maxlf_pos as P.
     assert (ceilidiv (s * 100) HM_MAXLF_n <= 4096 * s) by (apply ceilidiv_le; [assumption|nia]).
-    destruct o; cbn [hop_request hop_count] in *; try (apply at_request_small; assumption); try lia.
+    destruct o; cbn [Model.hop_request Model.hop_count] in *; try (apply at_request_small; assumption); try lia.
     assert (ceilidiv (n * 100) HM_MAXLF_n <= 4096 * n) by (apply ceilidiv_le; [assumption|nia]). lia.
   Qed.
 
@@ -565,6 +546,24 @@ Section HM5.
       assert (Z.of_nat (hop_request o (length al0)) <= 2 ^ 62)%Z; [|lia].
       apply hop_request_small; [lia|]. apply Hc. apply in_or_app. right; left; reflexivity.
     - rewrite E in E'. discriminate.
+  Qed.
+
+  (* pairs() yields every binding exactly once *)
+  Lemma hm_iteration_once : forall m, hm_inv m ->
+    exists l, hm_pairs K V m = Ok l /\ keys_nodup l /\ length l = hm_len K V m /\
+              forall k, hm_peek K V keqb khash k m = Ok (al_get K V keqb k l).
+  Proof.
+    intros m I. exists (hm_abs m).
+    split; [apply hm_pairs_ok|]. split; [destruct I as (ch & fl & I); eapply abs_nodup; eauto|].
+    split; [symmetry; apply hm_len_abs; assumption|]. intros k. apply hm_peek_ok; assumption.
+  Qed.
+
+  Lemma hm_rehash_bindings : forall n m, hm_inv m ->
+    (hm_rehash K V kdflt vdflt keqb khash n m = Trap TrapOverflow /\
+     (2 ^ 62 < Z.of_nat (Nat.max n (ceilidiv (hsize m * 100) HM_MAXLF_n)))%Z) \/
+    exists m', hm_rehash K V kdflt vdflt keqb khash n m = Ok m' /\ hm_inv m' /\ hm_abs m' = hm_abs m.
+  Proof.
+    intros n m I. destruct (hm_rehash_op n m I) as [(A & B & _)|(m' & A & B & C & _)]; [left; auto|right; eauto].
   Qed.
 
   Lemma hm_R_empty : hm_R (hm_empty K V) [].
